@@ -708,8 +708,8 @@ func (sp *Specs) parseFile(path, pkgName string, lines []string) error {
 			sp.Funcs[key] = cur
 			curMon = nil
 		case "iface":
-			key := r
-			if strings.Count(key, ".") == 1 {
+			key := strings.ReplaceAll(r, " ", "")
+			if !strings.Contains(key, "[") && strings.Count(key, ".") == 1 {
 				key = pkgName + "." + key
 			}
 			cur = &FuncContract{Key: key, Pkg: pkgName, File: path, IsIface: true, Params: map[string]string{}, Opts: map[string]string{}}
